@@ -61,6 +61,12 @@ pub fn random_req(rng: &mut Pcg64Mcg, max_steps: u64) -> Req {
     } else {
         (kt_finish, kt_ratio)
     };
+    // a negative ratio (a factor above one) leaves a zero temperature at zero however many loops
+    let (kt_finish, kt_ratio) = if kt_start == 0. && rng.gen_range(0, 8) == 0 {
+        (kt_finish, Some(pick(rng, &[-1., -9., -99.])))
+    } else {
+        (kt_finish, kt_ratio)
+    };
     // an infinite temperature (every defined proposal is accepted, an undefined one never), kept
     // infinite by a ratio of zero
     let (kt_start, kt_finish, kt_ratio) = if rng.gen_range(0, 25) == 0 {
@@ -170,9 +176,24 @@ pub fn scripted_suite(rng: &mut Pcg64Mcg, count: usize, max_steps: u64) -> Vec<R
     for k in 0..count {
         let mut req = random_req(rng, max_steps);
         let (vals, bounds) = random_cells(rng);
-        let kind = rng.gen_range(0, 10);
+        let mut kind = rng.gen_range(0, 10);
+        // a zero temperature under a "heating" ratio, over hundreds of loops: it stays zero
+        let heating = k % 20 == 3;
+        if heating {
+            req.kt_start = 0.;
+            req.kt_ratio = Some([-9., -99., -1.][(k / 20) % 3]);
+            req.steps = max_steps;
+            req.inner = [1, 2, 0][(k / 20) % 3];
+            req.convergence = None;
+            kind = 0;
+        }
         let (desc, brain) = if kind < 5 {
             let (s, tail) = random_script(rng, req.steps as usize);
+            let (s, tail) = if heating {
+                ((0..req.steps as usize).map(|i| if i % 7 == 0 { 'B' } else if i % 7 == 3 { 'w' } else { 'W' }).collect::<String>(), 'W')
+            } else {
+                (s, tail)
+            };
             // scripted runs use a temperature that makes 'W' surely rejected and 'w','v' surely
             // accepted when positive
             if req.kt_start > 0. {
@@ -185,6 +206,7 @@ pub fn scripted_suite(rng: &mut Pcg64Mcg, count: usize, max_steps: u64) -> Vec<R
                 req.kt_finish = None;
                 req.kt_ratio = Some(0.);
             }
+
             (
                 format!("scripted script={}.. tail={}", &s[..s.len().min(24)], tail),
                 Brain::Script(Script::new(&s, tail, vals.len())),
@@ -586,6 +608,12 @@ pub fn special_suite(rng: &mut Pcg64Mcg, count: usize) -> Vec<Run> {
         site["x"] = serde_json::json!(pick(rng, &[0.49, -0.49, 0.5, 0.3]));
         site["y"] = serde_json::json!(pick(rng, &[0.5, -0.5, 0.47]));
         j["cell"]["length"] = serde_json::json!(pick(rng, &[3.0, 4.0, 6.0]));
+        // now and then the side ratio exactly on its lower limit: the handle of the next stage
+        // has a range of zero width
+        if k % 3 == 1 {
+            j["cell"]["ratio"] = serde_json::json!(0.1);
+            j["cell"]["length"] = serde_json::json!(12.0);
+        }
         let st2: PotentialState<LJShape2> = match serde_json::from_value(j) {
             Ok(s) => s,
             Err(_) => continue,
